@@ -169,7 +169,7 @@ def _dependent_params(table, t):
     info = table.cls.get(t[1])
     if info:
         names = {pn for pn, pv, pb in info['params']}
-        if any(pb is not None and pb[0] == 'v' and pb[1] in names for pn, pv, pb in info['params']):
+        if any(pb is not None and (rm.free_vars(pb) & names) for pn, pv, pb in info['params']):
             return True
     return any(_dependent_params(table, a) for a in t[2])
 
